@@ -582,6 +582,22 @@ func Run(cfg Config) *hx.Result {
 			key := []string{"1", "a%2Fb", "x.y"}[rng.Intn(3)]
 			x.kTunReq(t, "/coll/"+key, &wq, wverb, rm, contents)
 			x.dEndToEnd(t, "/coll/"+key, &wq, wverb, rm, contents)
+			if i%8 == 0 {
+				// the same call shape, 2-4 instances with their own queries and bodies, all built first
+				k := 2 + rng.Intn(3)
+				qs := make([]string, k)
+				bs := make([][]byte, k)
+				for j := range qs {
+					qs[j] = genWireQuery(rng)
+					if contents != nil {
+						bs[j] = genBody(rng)
+						if len(bs[j]) == 0 {
+							bs[j] = []byte(`{"n":` + fmt.Sprint(j) + `}`)
+						}
+					}
+				}
+				x.dPending(1, "/coll/"+key, qs, wverb, rm, bs)
+			}
 		}
 	}
 	return r
